@@ -53,6 +53,12 @@ CHECKS.update({
    text='visit_events (callbacks = specified records for any nesting/counts/extension), parseL_flatten, visit_cursor_at_end, visit_stops (a stopped visit saw exactly the first k records), set_visit, enum_visit (value tag name or unknown). Correspondence: for generated schemas, every stopping point k of a visit of a reference image (records, stop flag, cursor at end after a complete visit, buffer unchanged); member names are taken from the traits of the tag each callback received; get_by_tag vs named accessor for every member; complete encode through set_by_tag/get_by_tag vs specification.',
    note='Trusted as C02; that the generated ||-chains invoke callbacks in schema order is established by the differential check only. Visiting a composite/enum/set stand-alone (outside a message) and on_message header visiting are not exercised.'),
 })
+CHECKS.update({
+ 'C16': dict(
+   technique='Lean 4 proof over a hand-transliterated model of optional_base/required_base (both comparison configurations) and over literal tables extracted from sbepp.hpp and types_compiler.hpp on every run, + differential correspondence (C++ harness for 11 primitives x C++11..2b x g++/clang vs model vs spec) and the real sbeppc on a generated schema',
+   text='25 obligations for all 11 primitives, every min/max/null triple and every bit pattern (floats as IEEE bit patterns, NaN payloads included): has_value_spec, to_bool_is_has_value, default_is_null, cmp_rules (null equals only null and orders before every value, otherwise underlying compare; both the six pre-C++20 operators and the <=>-derived relations), spaceship_well_formed, spaceship_agrees_with_operators, value_or_spec, in_range_spec, required_*; tables_extracted/defaults_match_builtins/builtins_match_sbe_table/generated_match_sbe_table: the whole generator default tables evaluate (C++ literal typing, narrowing) to the built-in types values and to the SBE table.',
+   note='Trusted: hand-written Rt/Optional.lean (tied by ~130k quick / 2.9M thorough three-way comparisons), extract/tables.py, numeric_limits constants in evalLit, platform assumptions checked by the harness each run. Explicit decimal floating-point literals are only checked for NaN/INF/-INF; constant evaluation not modelled.'),
+})
 NOT_APPLICABLE = {}
 
 ALL = ['C%02d' % i for i in range(1, 21)]
